@@ -296,16 +296,12 @@ Proof.
   - rewrite Z.mod_small by lia. replace (P <=? q) with false by (symmetry; apply Z.leb_gt; lia). reflexivity.
 Qed.
 
-Lemma bfe_i32_value : forall a b,
-  let x := s32 a in let off := u32 b mod 32 in let w := (u32 b / 65536) mod 128 in
-  bfe_i32_impl a b = if w =? 0 then 0 else sext (2 ^ (w - 1)) (2 ^ w) ((x / 2 ^ off) mod 2 ^ w).
+Lemma bfe_core_value : forall x off w,
+  - 2147483648 <= x < 2147483648 -> 0 <= off < 32 -> 0 <= w < 128 ->
+  bfe_core x off w = if w =? 0 then 0 else sext (2 ^ (w - 1)) (2 ^ w) ((x / 2 ^ off) mod 2 ^ w).
 Proof.
-  intros a b x off w. unfold bfe_i32_impl.
-  rewrite land31, land127, (Z.shiftr_div_pow2 _ 16) by lia. change (2 ^ 16) with 65536.
-  fold off. fold w. fold x.
-  assert (Hoff : 0 <= off < 32) by (subst off; lia). assert (Hw : 0 <= w < 128) by (subst w; lia).
+  intros x off w Hx Hoff Hw. unfold bfe_core.
   destruct (w =? 0) eqn:E0; [reflexivity|]. assert (Hw1 : 1 <= w) by lia.
-  pose proof (s32_range a) as Hx. fold x in Hx.
   assert (HA : 0 < 2 ^ off) by (apply Z.pow_pos_nonneg; lia).
   assert (HP : 0 < 2 ^ (w - 1)) by (apply Z.pow_pos_nonneg; lia).
   assert (HWd : 2 ^ w = 2 * 2 ^ (w - 1)).
@@ -330,14 +326,30 @@ Proof.
     + apply Z.mod_pos_bound; auto.
 Qed.
 
+Lemma bfe_core_range : forall x off w,
+  - 2147483648 <= x < 2147483648 -> 0 <= off -> 0 <= w <= 32 + off + w ->
+  - 2147483648 <= bfe_core x off w < 2147483648.
+Proof.
+  intros x off w Hx Hoff Hw. unfold bfe_core. change (-2147483648) with (- (2147483648)) in *.
+  repeat case_if; try lia.
+  - rewrite Z.shiftr_div_pow2 by lia. apply div_pow2_range; [lia|lia|exact Hx].
+  - rewrite Z.shiftr_div_pow2 by lia. apply div_pow2_range; [lia|lia|apply s32_range].
+Qed.
+
+Lemma bfe_i32_value : forall a b,
+  let x := s32 a in let off := u32 b mod 32 in let w := (u32 b / 65536) mod 128 in
+  bfe_i32_impl a b = if w =? 0 then 0 else sext (2 ^ (w - 1)) (2 ^ w) ((x / 2 ^ off) mod 2 ^ w).
+Proof.
+  intros a b x off w. unfold bfe_i32_impl.
+  rewrite land31, land127, (Z.shiftr_div_pow2 _ 16) by lia. change (2 ^ 16) with 65536.
+  fold off. fold w. fold x.
+  apply bfe_core_value; [apply s32_range|subst off; lia|subst w; lia].
+Qed.
+
 Lemma bfe_i32_range : forall a b, - 2147483648 <= bfe_i32_impl a b < 2147483648.
 Proof.
-  intros a b. unfold bfe_i32_impl. change (-2147483648) with (- (2147483648)).
-  repeat case_if; try lia.
-  - rewrite Z.shiftr_div_pow2 by (rewrite land31; lia).
-    apply div_pow2_range; [rewrite land31; lia|lia|apply s32_range].
-  - rewrite land31, land127 in *. rewrite Z.shiftr_div_pow2 by lia.
-    apply div_pow2_range; [lia|lia|apply s32_range].
+  intros a b. unfold bfe_i32_impl. rewrite land31, land127.
+  apply bfe_core_range; [apply s32_range|lia|lia].
 Qed.
 
 Lemma bfe_row : forall (st : state) x y, sccbit st -> 0 <= x < W64 -> 0 <= y < W64 ->
